@@ -63,3 +63,123 @@ func TestScenarios(t *testing.T) {
 		}
 	}
 }
+
+// TestDispatch replays C19 scenarios ($VERIF_SCN) and writes the call/save/wire logs to $VERIF_TRACE.
+func TestDispatch(t *testing.T) {
+	scn, out := os.Getenv("VERIF_SCN"), os.Getenv("VERIF_TRACE")
+	if scn == "" || out == "" {
+		t.Skip("VERIF_SCN / VERIF_TRACE not set")
+	}
+	shard, of := shardOf()
+	in, err := os.Open(scn)
+	if err != nil {
+		t.Fatal(err)
+	}
+	defer in.Close()
+	f, err := os.Create(out)
+	if err != nil {
+		t.Fatal(err)
+	}
+	defer f.Close()
+	w := bufio.NewWriterSize(f, 1<<20)
+	defer w.Flush()
+	enc := json.NewEncoder(w)
+	sc := bufio.NewScanner(in)
+	sc.Buffer(make([]byte, 1<<20), 1<<26)
+	n := 0
+	for sc.Scan() {
+		if len(sc.Bytes()) == 0 {
+			continue
+		}
+		n++
+		if (n-1)%of != shard {
+			continue
+		}
+		var s DScenario
+		if err := json.Unmarshal(sc.Bytes(), &s); err != nil {
+			t.Fatalf("DRIVER-ERROR bad scenario line %d: %v", n, err)
+		}
+		if s.Handlers == nil {
+			s.Handlers = []HSpec{}
+		}
+		recs, failure := RunDispatch(t, &s)
+		if failure != "" {
+			t.Fatalf("DRIVER-ERROR scenario %s: %s", s.ID, failure)
+		}
+		for _, r := range recs {
+			if err := enc.Encode(r); err != nil {
+				t.Fatal(err)
+			}
+		}
+	}
+}
+
+func shardOf() (int, int) {
+	shard, of := 0, 1
+	if s := os.Getenv("VERIF_SHARD"); s != "" {
+		for i := 0; i < len(s); i++ {
+			if s[i] == '/' {
+				shard, _ = strconv.Atoi(s[:i])
+				of, _ = strconv.Atoi(s[i+1:])
+			}
+		}
+	}
+	return shard, of
+}
+
+// TestSendPath replays C05 scenarios: forced gate schedules (real time) and stress runs (virtual time).
+func TestSendPath(t *testing.T) {
+	scn, out := os.Getenv("VERIF_SCN"), os.Getenv("VERIF_TRACE")
+	if scn == "" || out == "" {
+		t.Skip("VERIF_SCN / VERIF_TRACE not set")
+	}
+	shard, of := shardOf()
+	in, err := os.Open(scn)
+	if err != nil {
+		t.Fatal(err)
+	}
+	defer in.Close()
+	f, err := os.Create(out)
+	if err != nil {
+		t.Fatal(err)
+	}
+	defer f.Close()
+	w := bufio.NewWriterSize(f, 1<<20)
+	defer w.Flush()
+	enc := json.NewEncoder(w)
+	sc := bufio.NewScanner(in)
+	sc.Buffer(make([]byte, 1<<20), 1<<26)
+	n := 0
+	for sc.Scan() {
+		if len(sc.Bytes()) == 0 {
+			continue
+		}
+		n++
+		if (n-1)%of != shard {
+			continue
+		}
+		var s SPScenario
+		if err := json.Unmarshal(sc.Bytes(), &s); err != nil {
+			t.Fatalf("DRIVER-ERROR bad scenario line %d: %v", n, err)
+		}
+		var o *WireObs
+		var failure string
+		if s.Kind == "gate" {
+			o, failure = RunGate(&s)
+		} else {
+			o, failure = RunStress(t, &s)
+		}
+		if failure != "" {
+			t.Fatalf("DRIVER-ERROR scenario %s: %s", s.ID, failure)
+		}
+		if o.Order == nil {
+			o.Order = []int{}
+		}
+		if o.Msgs == nil {
+			o.Msgs = []WireRec{}
+		}
+		if err := enc.Encode(o); err != nil {
+			t.Fatal(err)
+		}
+	}
+}
